@@ -48,7 +48,7 @@ _KEEP = {
     'Disp': ['b', 'e', 'ty', 'out', 'xp', 'xpe', 'act', 'drv', 'fw', 'same', 'n'],
     'HEnter': ['act', 'b', 'e', 'h', 'rb', 'sync', 'tmo'],
     'HExit': ['act', 'out'],
-    'HOp': ['act'],
+    'HOp': ['act', 'op'],
     'HReadBus': ['act', 'rb'],
     'AwB': ['act', 'e'],
     'AwE': ['act', 'e', 'canc', 'same'],
